@@ -2708,12 +2708,13 @@ impl Interpreter {
                                 JsValue::Number(n) => crate::value::number_to_string(*n),
                                 JsValue::Boolean(true) => "true".to_string(),
                                 JsValue::Boolean(false) => "false".to_string(),
-                                _ => "[object Object]".to_string(),
+                                // nested arrays and other objects convert like they do on their own
+                                other => other.to_js_string().to_string(),
                             })
                             .collect();
                         JsString::from(strings.join(","))
                     }
-                    _ => self.intern("[object Object]"),
+                    _ => value.to_js_string(),
                 }
             }
         }
